@@ -100,7 +100,8 @@ func buildSvcFan(tier string, prop string) sim.Scenario {
 	main := func(w *sim.World) {
 		w.PanicClass = prop + "/panic"
 		tp := w.Tape
-		sw = newSvcWorld(w, false, tp.Bool(), []*auth.User{{Name: "admin", Password: "admin", Admin: true}}, nil)
+		cacheGop := tp.Bool()
+		sw = newSvcWorld(w, false, cacheGop, []*auth.User{{Name: "admin", Password: "admin", Admin: true}}, nil)
 		tok, _, st := sw.login("login", "admin", "admin")
 		if tok == "" {
 			w.Fail(prop+"/harness", "admin login failed: %d", st)
@@ -429,6 +430,25 @@ func buildSvcFan(tier string, prop string) sim.Scenario {
 					}
 					last[g.ch] = i
 					have[i] = true
+				}
+				// contiguity per channel, from the first packet received (replayed from the GOP cache or live) to the last:
+				// no gap and no repeat between the cached part and the live part
+				posInCh := map[int]int{}
+				chCount := map[int]int{}
+				for i := range pubs {
+					ch := int(pubs[i].p.Channel)
+					posInCh[i] = chCount[ch]
+					chCount[ch]++
+				}
+				prevPos := map[int]int{}
+				prevIdx := map[int]int{}
+				for _, g := range got {
+					i := idxByData[string(g.data)]
+					if pp, ok := prevPos[g.ch]; ok && posInCh[i] != pp+1 {
+						w.Fail("C01/gap", "%s client %s: on channel %d published packet #%d was followed by #%d: %d packet(s) of the channel in between never arrived (cache_gop=%v, PLAY answered at #%d) although nothing was dropped for backlog", c.kind, c.name, g.ch, prevIdx[g.ch], i, posInCh[i]-pp-1, cacheGop, c.after)
+						return
+					}
+					prevPos[g.ch], prevIdx[g.ch] = posInCh[i], i
 				}
 				// completeness: nothing is dropped for backlog here, so among the packets published after the
 				// PLAY answer a client that stayed misses none, and a client that left misses only a tail
